@@ -372,13 +372,13 @@ class GeopackageCache(TileCacheBase):
             coords.append(x)
             coords.append(y)
             coords.append(level)
-            tile_dict[(x, y)] = tile
+            tile_dict[(x, y, level)] = tile
 
         if not tile_dict:
             # all tiles loaded or coords are None
             return True
 
-        stmt_base = "SELECT tile_column, tile_row, tile_data FROM [{0}] WHERE ".format(self.table_name)
+        stmt_base = "SELECT tile_column, tile_row, tile_data, zoom_level FROM [{0}] WHERE ".format(self.table_name)
 
         loaded_tiles = 0
 
@@ -394,7 +394,7 @@ class GeopackageCache(TileCacheBase):
 
             for row in cursor:
                 loaded_tiles += 1
-                tile = tile_dict[(row[0], row[1])]
+                tile = tile_dict[(row[0], row[1], row[-1])]
                 data = row[2]
                 tile.size = len(data)
                 tile.source = ImageSource(BytesIO(data))
@@ -510,17 +510,18 @@ class GeopackageLevelCache(TileCacheBase):
         return self._get_level(tile.coord[2]).load_tile(tile, with_metadata=with_metadata, dimensions=dimensions)
 
     def load_tiles(self, tiles, with_metadata=False, dimensions=None):
-        level = None
+        levels = {}
         for tile in tiles:
             if tile.source or tile.coord is None:
                 continue
-            level = tile.coord[2]
-            break
+            levels.setdefault(tile.coord[2], []).append(tile)
 
-        if level is None:
-            return True
-
-        return self._get_level(level).load_tiles(tiles, with_metadata=with_metadata, dimensions=dimensions)
+        all_loaded = True
+        for level, level_tiles in levels.items():
+            if not self._get_level(level).load_tiles(
+                    level_tiles, with_metadata=with_metadata, dimensions=dimensions):
+                all_loaded = False
+        return all_loaded
 
     def remove_tile(self, tile, dimensions=None):
         if tile.coord is None:
